@@ -396,6 +396,11 @@ func runC19Bounds(c *Ctx) {
 						f.le("", 0, bc.key(call), 0, 0) // idx >= 0
 					}
 				}
+				for _, call := range callsIn(fn, "strings.IndexByte") {
+					if k, ok := constInt(call.Call.Args[1]); ok && k == ':' {
+						f.le("", 0, bc.key(call), 0, 0) // idx >= 0
+					}
+				}
 			}
 		case "ParseFile":
 			// the source text of a tag literal (ast.BasicLit.Value of Field.Tag) is quoted: len >= 2
